@@ -38,7 +38,6 @@ Proof.
     intros sb' E; inversion E; subst. repeat split; cbn; auto; try discriminate.
   - split; [|split; [discriminate|intros; congruence]].
     intros sb' E; inversion E; subst. repeat split; cbn; auto; try discriminate.
-    intros k0 c0 _. discriminate.
   - split; [|split; [discriminate|intros; congruence]].
     intros sb' E; inversion E; subst. repeat split; cbn; auto; try discriminate.
     intros Hz. elim (C _ _ H0 Hz).
@@ -65,15 +64,16 @@ Proof.
       - intros w wk sb Hw Hs. destruct Hws as [E|(f & E)]; rewrite E in Hw; [eauto|].
         snoc_cases Hw; [eauto|discriminate].
       - intros q ql sb Hq Hs. rewrite Hps in Hq. upd_cases Hq; [cbn in Hs; auto|eauto]. }
-    inversion H1; subst; try solve [eapply Hgen; sproj; eauto; try discriminate; intros sb E; discriminate].
-    + eapply Hgen; sproj; eauto. intros sb E. inversion E. apply sub_shape_sub0.
+    inversion H1; subst;
+      try solve [eapply Hgen; sproj; [idtac|idtac|reflexivity]; [intros sb E; discriminate|eauto]].
+    + apply (Hgen (LSending (sub0 (pid pl) p))); sproj;
+        [intros sb E; inversion E; apply sub_shape_sub0|left; reflexivity|reflexivity].
     + destruct (sub_rel_shape _ _ _ _ (B _ _ _ H0 H2) H3) as (X & _).
       destruct (sub_rel_eff _ _ _ _ H3) as (Ep & Er & Ew & Ec & Eo).
-      eapply Hgen; sproj; eauto.
+      apply (Hgen (match o with SCont sb' => LSending sb' | SFin true => LRecv | SFin false => LUpsert end)); sproj.
       * intros sb0 E. destruct o as [sb'|[|]]; try discriminate. inversion E; subst. auto.
       * destruct Ew as [Ew|(f & Ew)]; rewrite Ew; eauto.
       * rewrite Ep. reflexivity.
-    + eapply Hgen; sproj; eauto. intros sb E; discriminate.
   - (* work *)
     assert (Hgen : forall f' sbo s0, (forall sb, sbo = Some sb -> sub_shape sb) ->
               polls s0 = polls s -> (exists ws, (ws = works s \/ exists f, ws = works s ++ [ {| wf := f; wsub := None |} ]) /\
@@ -83,14 +83,146 @@ Proof.
         destruct Hws as [->|(f & ->)]; [eauto|]. snoc_cases Hw; [eauto|discriminate].
       - intros q ql sb Hq Hs. rewrite Hps in Hq. eauto. }
     inversion H1; subst;
-      try solve [eapply Hgen; sproj; eauto; try discriminate; exists (works s); split; [left; reflexivity|reflexivity]].
+      try solve [eapply Hgen; sproj; [idtac|reflexivity|exists (works s); split; [left; reflexivity|reflexivity]]; discriminate].
     + destruct (sub_rel_shape _ _ _ _ (A _ _ _ H0 H2) H4) as (X & Y & _).
       destruct (sub_rel_eff _ _ _ _ H4) as (Ep & Er & Ew & Ec & Eo).
-      eapply Hgen; sproj; eauto.
+      eapply Hgen; sproj; [idtac|exact Ep|exists (works s1); split; [|reflexivity]].
       * intros sb0 E. destruct o as [sb'|[|]]; try discriminate; inversion E; subst; auto.
         destruct (A _ _ _ H0 H2) as (P & Q & R & S). repeat split; cbn; auto; try discriminate.
-      * exists (works s1). split; [|reflexivity]. destruct Ew as [Ew|(f & Ew)]; rewrite Ew; eauto.
-    + eapply Hgen; sproj; eauto.
-      * intros sb E. inversion E. apply sub_shape_sub0.
-      * exists (works s); split; [left; reflexivity|reflexivity].
+      * destruct Ew as [Ew|(f & Ew)]; rewrite Ew; eauto.
+    + eapply Hgen; sproj; [idtac|reflexivity|exists (works s); split; [left; reflexivity|reflexivity]].
+      intros sb E. inversion E. apply sub_shape_sub0.
+Qed.
+
+(* ------------------------------------------------------------------ flat_mapi *)
+
+Lemma flat_mapi_eq {A B} (f g : nat -> A -> list B) : forall l l' k,
+  length l' = length l ->
+  (forall i x', nth_error l' i = Some x' -> exists x, nth_error l i = Some x /\ g (k + i) x' = f (k + i) x) ->
+  flat_mapi g k l' = flat_mapi f k l.
+Proof.
+  induction l as [|x l IH]; intros [|x' l'] k Hl H; cbn in Hl; try discriminate; [reflexivity|].
+  cbn [flat_mapi]. f_equal.
+  - destruct (H 0 x' eq_refl) as (y & Hy & E). cbn in Hy. inversion Hy; subst. rewrite Nat.add_0_r in E. exact E.
+  - apply IH; [lia|]. intros i y' Hi. destruct (H (S i) y' Hi) as (y & Hy & E). exists y. split; [exact Hy|].
+    replace (S k + i) with (k + S i) by lia. exact E.
+Qed.
+
+Lemma flat_mapi_snoc {A B} (f : nat -> A -> list B) : forall l k x,
+  flat_mapi f k (l ++ [x]) = flat_mapi f k l ++ f (k + length l) x.
+Proof.
+  induction l as [|y l IH]; intros k x; cbn [flat_mapi app length].
+  - rewrite Nat.add_0_r, app_nil_r. reflexivity.
+  - rewrite IH. replace (S k + length l) with (k + S (length l)) by lia. rewrite app_assoc. reflexivity.
+Qed.
+
+Lemma flat_mapi_nil {A B} (f : nat -> A -> list B) : forall l k,
+  (forall i x, nth_error l i = Some x -> f (k + i) x = []) -> flat_mapi f k l = [].
+Proof.
+  induction l as [|x l IH]; intros k H; cbn [flat_mapi]; [reflexivity|].
+  rewrite (IH (S k)).
+  - specialize (H 0 x eq_refl). rewrite Nat.add_0_r in H. rewrite H. reflexivity.
+  - intros i y Hi. replace (S k + i) with (k + S i) by lia. apply H. exact Hi.
+Qed.
+
+(* the contribution of one index, and the rest *)
+Lemma flat_mapi_split {A B} (f : nat -> A -> list B) : forall l k i x,
+  nth_error l i = Some x ->
+  exists R1 R2, flat_mapi f k l = R1 ++ f (k + i) x ++ R2 /\
+    forall (g : nat -> A -> list B) x',
+      (forall j y, j <> i -> nth_error l j = Some y -> g (k + j) y = f (k + j) y) ->
+      flat_mapi g k (upd i x' l) = R1 ++ g (k + i) x' ++ R2.
+Proof.
+  induction l as [|y l IH]; intros k i x Hi; [destruct i; discriminate|].
+  destruct i as [|i]; cbn in Hi.
+  - inversion Hi; subst. exists [], (flat_mapi f (S k) l). cbn [flat_mapi app upd]. rewrite Nat.add_0_r.
+    split; [reflexivity|].
+    intros g x' Hg. f_equal. apply flat_mapi_eq; [reflexivity|].
+    intros j z Hj. exists z. split; [exact Hj|]. replace (S k + j) with (k + S j) by lia.
+    apply Hg; [lia|exact Hj].
+  - destruct (IH (S k) i x Hi) as (R1 & R2 & E & Hg).
+    exists (f k y ++ R1), R2. cbn [flat_mapi upd]. split.
+    + rewrite E. replace (S k + i) with (k + S i) by lia. rewrite <- app_assoc. reflexivity.
+    + intros g x' Hgg. rewrite (Hg g x').
+      * specialize (Hgg 0 y ltac:(lia) eq_refl). rewrite Nat.add_0_r in Hgg. rewrite Hgg.
+        replace (S k + i) with (k + S i) by lia. rewrite <- app_assoc. reflexivity.
+      * intros j z Hj Hz. replace (S k + j) with (k + S j) by lia. apply Hgg; [lia|exact Hz].
+Qed.
+
+Lemma flat_map_mapi {A B} (f : A -> list B) l : forall k, flat_map f l = flat_mapi (fun _ => f) k l.
+Proof. induction l as [|x l IH]; intros k; cbn; [reflexivity|]. rewrite (IH (S k)). reflexivity. Qed.
+
+(* ------------------------------------------------------------------ ents *)
+
+Lemma ents_app c b1 b2 : ents c (b1 ++ b2) = ents c b1 ++ ents c b2.
+Proof. unfold ents. apply flat_map_app. Qed.
+
+Lemma ents_nil_other c b : (forall e, In e b -> e_cache e <> c) -> ents c b = [].
+Proof.
+  induction b as [|e b IH]; intros H; cbn; [reflexivity|].
+  destruct (Nat.eqb (e_cache e) c) eqn:E.
+  - apply Nat.eqb_eq in E. elim (H e); auto. left; reflexivity.
+  - apply IH. intros e' Hin. apply H. right; exact Hin.
+Qed.
+
+Lemma dmsgs_pairs c id b : dmsgs c (map (pair id) b) = ents c b.
+Proof.
+  induction b as [|e b IH]; cbn; [reflexivity|].
+  destruct (Nat.eqb (e_cache e) c); rewrite IH; reflexivity.
+Qed.
+
+Definition LPc (s : state) (c : nat) : list Z := flat_mapi (live_poll s c) 0 (polls s).
+Definition LWc (s : state) (c : nat) : list Z := flat_map (live_work s c) (works s).
+
+Lemma live_split s c : live s c = LPc s c ++ LWc s c.
+Proof. reflexivity. Qed.
+
+(* pointwise equal contributions *)
+Lemma LPc_same s s' c :
+  length (polls s') = length (polls s) ->
+  (forall q ql', nth_error (polls s') q = Some ql' ->
+     exists ql, nth_error (polls s) q = Some ql /\ live_poll s' c q ql' = live_poll s c q ql) ->
+  LPc s' c = LPc s c.
+Proof. intros Hl H. unfold LPc. apply flat_mapi_eq; auto. Qed.
+
+Lemma LWc_same s s' c :
+  length (works s') = length (works s) ->
+  (forall w wk', nth_error (works s') w = Some wk' ->
+     exists wk, nth_error (works s) w = Some wk /\ live_work s' c wk' = live_work s c wk) ->
+  LWc s' c = LWc s c.
+Proof.
+  intros Hl H. unfold LWc. rewrite (flat_map_mapi _ _ 0), (flat_map_mapi _ (works s) 0).
+  apply flat_mapi_eq; auto.
+Qed.
+
+Lemma LWc_snoc s s' c f :
+  works s' = works s ++ [ {| wf := f; wsub := None |} ] ->
+  (forall wk, In wk (works s) -> live_work s' c wk = live_work s c wk) ->
+  LWc s' c = LWc s c.
+Proof.
+  intros E H. unfold LWc. rewrite E, flat_map_app. cbn. rewrite !app_nil_r.
+  revert H. generalize (works s) as l. induction l as [|x l IH]; intros H; cbn; [reflexivity|].
+  rewrite H by (left; reflexivity). f_equal. apply IH. intros wk Hin. apply H. right; exact Hin.
+Qed.
+
+(* one poll changes its contribution *)
+Lemma LPc_change s s' c p pl pl' :
+  nth_error (polls s) p = Some pl -> polls s' = upd p pl' (polls s) ->
+  (forall q ql, q <> p -> nth_error (polls s) q = Some ql -> live_poll s' c q ql = live_poll s c q ql) ->
+  exists R1 R2, LPc s c = R1 ++ live_poll s c p pl ++ R2 /\ LPc s' c = R1 ++ live_poll s' c p pl' ++ R2.
+Proof.
+  intros Hp Ep Hq. unfold LPc. rewrite Ep.
+  destruct (flat_mapi_split (live_poll s c) (polls s) 0 p pl Hp) as (R1 & R2 & E & Hg).
+  exists R1, R2. split; [exact E|]. apply (Hg (live_poll s' c) pl'). intros j y Hj Hy. cbn. eapply Hq; eauto.
+Qed.
+
+Lemma LWc_change s s' c w wk wk' :
+  nth_error (works s) w = Some wk -> works s' = upd w wk' (works s) ->
+  (forall q qk, q <> w -> nth_error (works s) q = Some qk -> live_work s' c qk = live_work s c qk) ->
+  exists R1 R2, LWc s c = R1 ++ live_work s c wk ++ R2 /\ LWc s' c = R1 ++ live_work s' c wk' ++ R2.
+Proof.
+  intros Hw Ew Hq. unfold LWc. rewrite Ew.
+  rewrite (flat_map_mapi _ (works s) 0), (flat_map_mapi _ (upd w wk' (works s)) 0).
+  destruct (flat_mapi_split (fun _ => live_work s c) (works s) 0 w wk Hw) as (R1 & R2 & E & Hg).
+  exists R1, R2. split; [exact E|]. apply (Hg (fun _ => live_work s' c) wk'). intros j y Hj Hy. cbn. eapply Hq; eauto.
 Qed.
